@@ -91,10 +91,12 @@ func (aer *AppExecResult) EncodeBinaryWithContext(w *io.BinWriter, sc *stackitem
 	w.WriteBytes(aer.Container[:])
 	w.WriteB(byte(aer.Trigger))
 	invocLen := len(aer.Invocations)
+	// The flag lives in the encoding only, the encoded object stays as it is.
+	vmState := aer.VMState
 	if invocLen > 0 {
-		aer.VMState |= saveInvocationsBit
+		vmState |= saveInvocationsBit
 	}
-	w.WriteB(byte(aer.VMState))
+	w.WriteB(byte(vmState))
 	w.WriteU64LE(uint64(aer.GasConsumed))
 	// Stack items are expected to be marshaled one by one.
 	w.WriteVarUint(uint64(len(aer.Stack)))
